@@ -166,7 +166,7 @@ impl Property for C04 {
         ]
     }
     fn generate(&self, tier: Tier, seed: u64) -> Vec<Value> {
-        match schemars_cases("C04", seed, tier.pick(60, 1500), 6) {
+        match schemars_cases("C04", seed, tier.pick(120, 1500), 6) {
             Ok((cases, dropped)) => {
                 gen::excluded("universes-not-compilable(generator)", dropped as u64);
                 cases
